@@ -9,10 +9,27 @@
                             delimiter byte; right_ok post likewise; a delimiter is any byte other than
                             [0-9A-Za-z_] and ':'  (whitespace, punctuation other than ':', non-ASCII)
      replaced_spans t     : the (start, end) positions of t that Scrub replaces by "[scrubbed]"
-     C07_v0_*             : the pinned algorithm / pinned patterns (Model/SafelogPinned.v, frozen) violate the property. *)
+     dotted_run pre w     : w is a dotted quad (with or without port) and pre ends with a decimal digit and '.':
+                            the occurrence continues a run of dotted numbers such as 1.2.3.4.5.6.7, in which the
+                            scrubber takes the first four numbers as the address (C07_r2_dotted_run_refuted)
+     colon_ws w post      : w ends with ':' and post starts with a whitespace byte: the pattern's delimiter
+                            alternative ":\s" may take the last ':' of h:h:h:h:h:h:h:: (C07_r2_last_colon_survives)
+     C07_covers_all       : COVERAGE - outside these two cases the whole occurrence lies inside one replaced span
+     C07_v0_*             : the pinned algorithm / pinned patterns (Model/SafelogPinned.v, frozen) violate the property.
+     C07_r2_*             : the current patterns (Model/SafelogRound2.v, frozen copy of /repo d0c6152): what the
+                            coverage theorem excludes is really not covered.
+
+   Concurrent writers: LogScrubber.Write holds ls.lock for its whole body, so concurrent Write calls take effect
+   one after the other in the order in which they obtain the mutex.  A history of concurrent writers is therefore
+   modelled as the serial list ws of Write calls in that order, and the writer theorems quantify over every list
+   ws, i.e. over every such order and every splitting.  That the lock really serialises the calls (no data race on
+   the buffer) is not proved here; it is checked on the implementation in C20 (race detector) and exercised by the
+   `conc` cases of lib/checks/c07.py. *)
 From Coq Require Import String List NArith.
 From Snow Require Import Lib.Wire Model.Regex Model.RegexIncl Model.Scrub Model.SafelogPinned Gen.SafelogPatterns.
+From Snow Require Import Model.RegexDisj Model.SafelogRound2.
 From Snow Require Import Proofs.RegexProofs Proofs.MatcherProofs Proofs.ScrubProofs Proofs.C07Proofs.
+From Snow Require Import Proofs.RegexDisjProofs Proofs.ScrubCoverProofs Proofs.C07CoverProofs.
 Import ListNotations.
 Open Scope string_scope.
 Open Scope list_scope.
@@ -52,6 +69,51 @@ Theorem C07_hides_all : forall pre w post,
               a < length pre + length w /\ length pre < b.
 Proof. exact hides_all. Qed.
 
+(* ---- COVERAGE.  generic: the disjointness checker is sound (used by reflection in Proofs/C07CoverProofs.v) *)
+Theorem C07_disj_sound : forall r1 r2,
+  RegexDisj.disj r1 r2 = true -> forall w, matches r1 w -> matches r2 w -> False.
+Proof. exact disj_sound. Qed.
+
+(* every delimited occurrence of an address that does not continue a dotted run lies INSIDE one replaced
+   span - all of it, or all but a final ':' when whitespace follows *)
+Theorem C07_covers_all : forall pre w post,
+  matches addr_spec w -> left_ok pre -> right_ok post -> ~ dotted_run pre w ->
+  exists a b, In (a, b) (replaced_spans (pre ++ w ++ post)) /\
+              a <= length pre /\
+              (length pre + length w <= b \/ (b + 1 = length pre + length w /\ colon_ws w post)).
+Proof. exact covers_all. Qed.
+
+Theorem C07_covers_all_strict : forall pre w post,
+  matches addr_spec w -> left_ok pre -> right_ok post -> ~ dotted_run pre w -> ~ colon_ws w post ->
+  exists a b, In (a, b) (replaced_spans (pre ++ w ++ post)) /\
+              a <= length pre /\ length pre + length w <= b.
+Proof. exact covers_all_strict. Qed.
+
+(* hence the output is: the rendering of a prefix of pre, the placeholder, the rendering of a suffix of post
+   (of ':' ++ post in the colon case).  No byte of the address takes part in the output. *)
+Theorem C07_address_absent : forall pre w post,
+  matches addr_spec w -> left_ok pre -> right_ok post -> ~ dotted_run pre w ->
+  exists a b sp1 sp2 rest,
+    replaced_spans (pre ++ w ++ post) = sp1 ++ (a, b) :: sp2 /\ a <= length pre /\
+    scrub full_patterns (pre ++ w ++ post) = render (firstn a pre) 0 sp1 ++ scrubbed ++ render rest b sp2 /\
+    ((length pre + length w <= b /\ rest = skipn (b - (length pre + length w)) post) \/
+     (b + 1 = length pre + length w /\ rest = 58%N :: post /\ colon_ws w post)).
+Proof. exact address_absent. Qed.
+
+(* common/event (EventOnOfferCreated, EventOnBrokerRendezvous, EventOnSnowflakeConnectionFailed): String() is a
+   fixed text followed by Scrub of the error text; no byte of a delimited address of the error text takes part in it.
+   (The client hands these strings to tor's log with pt.Log; lib/checks/c07.py builds the error chains of Go's
+   net / net/url packages and compares String() with event_string.) *)
+Theorem C07_event_string_covered : forall ty pre w post,
+  matches addr_spec w -> left_ok pre -> right_ok post -> ~ dotted_run pre w ->
+  exists a b sp1 sp2 rest,
+    replaced_spans (pre ++ w ++ post) = sp1 ++ (a, b) :: sp2 /\ a <= length pre /\
+    event_string full_patterns ty (pre ++ w ++ post) =
+      event_prefix ty ++ render (firstn a pre) 0 sp1 ++ scrubbed ++ render rest b sp2 /\
+    ((length pre + length w <= b /\ rest = skipn (b - (length pre + length w)) post) \/
+     (b + 1 = length pre + length w /\ rest = 58%N :: post /\ colon_ws w post)).
+Proof. exact event_string_covered. Qed.
+
 (* the writer: what reaches the sink depends only on the concatenation of the writes; it is the
    per-line scrubbed image of the complete lines, in order; the rest stays buffered *)
 Theorem C07_write_split_invariant : forall ws,
@@ -81,6 +143,18 @@ Theorem C07_end_to_end : forall ws outs pend,
       matches addr_spec w -> left_ok pre -> right_ok post ->
       exists a b, In (a, b) (replaced_spans l) /\ a < length pre + length w /\ length pre < b.
 Proof. exact end_to_end. Qed.
+
+(* ... and with coverage instead of overlap *)
+Theorem C07_end_to_end_covered : forall ws outs pend,
+  run_writes (write (scrub full_patterns)) [] ws = (outs, pend) ->
+  exists lines,
+    outs = map (fun l => render l 0 (replaced_spans l)) lines /\
+    Forall is_line lines /\ concat lines ++ pend = concat ws /\ no_nl pend /\
+    forall l pre w post, In l lines -> l = pre ++ w ++ post ->
+      matches addr_spec w -> left_ok pre -> right_ok post -> ~ dotted_run pre w ->
+      exists a b, In (a, b) (replaced_spans l) /\ a <= length pre /\
+                  (length pre + length w <= b \/ (b + 1 = length pre + length w /\ colon_ws w post)).
+Proof. exact end_to_end_covered. Qed.
 
 (* a scrubbed line still ends with its newline: every block the sink receives ends with '\n' *)
 Theorem C07_block_ends_with_newline : forall l, is_line l ->
@@ -117,7 +191,63 @@ Theorem C07_v0_split_dependent :
     concat (fst (run_writes (write_v0 sc0) [] ws1)) <> concat (fst (run_writes (write_v0 sc0) [] ws2)).
 Proof. exact v0_split_dependent. Qed.
 
+(* ---- the current patterns: the two exclusions of C07_covers_all cannot be dropped *)
+
+(* "1.2.3." "4.5.6.7" " x"  ->  "[scrubbed].5.6.7 x" *)
+Theorem C07_r2_dotted_run_refuted :
+  exists pre w post,
+    matches addr_spec w /\ left_ok pre /\ right_ok post /\ dotted_run pre w /\
+    sc2 (pre ++ w ++ post) = scrubbed ++ skipn 1 w ++ post.
+Proof. exact r2_dotted_run. Qed.
+
+(* "1:2:3:4:5:6:7::" " x"  ->  "[scrubbed]: x" *)
+Theorem C07_r2_last_colon_survives :
+  exists w post,
+    matches addr_spec w /\ right_ok post /\ colon_ws w post /\
+    sc2 (w ++ post) = scrubbed ++ [58%N] ++ post.
+Proof. exact r2_last_colon. Qed.
+
 (* ---- the hypotheses of the implications are satisfiable *)
+
+(* a dotted quad after a word ending in '.', and an IPv6 address after a dotted number: both inside the theorem *)
+Example C07_covers_all_nonvacuous :
+  (exists pre w post, matches addr_spec w /\ left_ok pre /\ right_ok post /\ ~ dotted_run pre w /\
+                      ~ colon_ws w post /\ matches v4forms w /\ pre <> [] /\ post <> []) /\
+  (exists pre w post, matches addr_spec w /\ left_ok pre /\ right_ok post /\ ~ dotted_run pre w /\
+                      colon_ws w post).
+Proof.
+  split.
+  - exists (bs "host."), (bs "1.2.3.4:80"), (bs ".").
+    split; [apply spec_word; vm_compute; reflexivity|].
+    split; [right; exists (bs "host"), 46%N; split; reflexivity|].
+    split; [right; exists 46%N, []; split; reflexivity|].
+    split.
+    { intros (_ & pre' & d & E & Hd). apply (f_equal (@rev N)) in E. rewrite rev_app_distr in E.
+      simpl in E. inversion E; subst. vm_compute in Hd. discriminate. }
+    split.
+    { intros (_ & z & post' & E & Hz). inversion E; subst. vm_compute in Hz. discriminate. }
+    split; [apply matchb_sound; vm_compute; reflexivity|]. split; discriminate.
+  - exists (bs "v1.2."), (bs "1:2:3:4:5:6:7::"), (bs " x").
+    split; [apply spec_word; vm_compute; reflexivity|].
+    split; [right; exists (bs "v1.2"), 46%N; split; reflexivity|].
+    split; [right; exists 32%N, (bs "x"); split; reflexivity|].
+    split.
+    { intros (Hv & _). apply derivs_correct in Hv. vm_compute in Hv. discriminate. }
+    split; [exists (bs "1:2:3:4:5:6:7:"); reflexivity|exists 32%N, (bs "x"); split; reflexivity].
+Qed.
+
+Example C07_r2_dotted_run_sometimes_covered :
+  sc2 (bs "a 1.2.3.4.5.6.7.8 ") = bs "a [scrubbed].[scrubbed] ".
+Proof. exact r2_dotted_run_sometimes_covered. Qed.
+
+Example C07_event_string_example :
+  event_string full_patterns 1 (bs "dial tcp: lookup x.example on [2001:db8::53]:53: no such host") =
+  bs "broker failure dial tcp: lookup x.example on [scrubbed]: no such host".
+Proof. vm_compute. reflexivity. Qed.
+
+Example C07_disj_nonvacuous : RegexDisj.disj rest_spec (after gA rest_spec) = true.
+Proof. exact g_K2. Qed.
+
 
 Example C07_hides_all_nonvacuous :
   exists pre w post, matches addr_spec w /\ left_ok pre /\ right_ok post /\ pre <> [] /\ post <> [].
